@@ -1,0 +1,27 @@
+//go:build verif
+
+// Verification hook for property C10 (build tag `verif` only): add-only accessors, no behaviour change.
+package ambient
+
+import (
+	securityclient "istio.io/client-go/pkg/apis/security/v1"
+	"istio.io/istio/pkg/workloadapi/security"
+)
+
+// VerifStaticStrictPolicyName is the name of the static STRICT policy referenced by workloads.
+const VerifStaticStrictPolicyName = staticStrictPolicyName
+
+// VerifConvertedSelectorPeerAuthentications exposes convertedSelectorPeerAuthentications.
+func VerifConvertedSelectorPeerAuthentications(rootNamespace string, configs []*securityclient.PeerAuthentication) []string {
+	return convertedSelectorPeerAuthentications(rootNamespace, configs)
+}
+
+// VerifConvertPeerAuthentication exposes convertPeerAuthentication.
+func VerifConvertPeerAuthentication(rootNamespace string, cfg, nsCfg, rootCfg *securityclient.PeerAuthentication) *security.Authorization {
+	return convertPeerAuthentication(rootNamespace, cfg, nsCfg, rootCfg)
+}
+
+// VerifGetOldestPeerAuthn exposes getOldestPeerAuthn.
+func VerifGetOldestPeerAuthn(policies []*securityclient.PeerAuthentication) *securityclient.PeerAuthentication {
+	return getOldestPeerAuthn(policies)
+}
